@@ -99,6 +99,13 @@ CHECKS = {
          "offset must raise a decode error or be itself well-formed (byte-identical re-encoding); oversize fields must make write() raise ValueError.",
          "message dispatch by type byte is out of scope (C06); NextProtocol padding content is opaque; record-layer framing is C14/C08",
          "DESIGN.md §4 C15"),
+ "C17": ("fault_enumeration",
+         "fault enumeration by stream offset on scripted sockets (EOF / ECONNRESET / EPIPE at every record boundary and header/body split of every flight, both endpoints, both directions) plus enumerated closure events in the data phase",
+         "For 12 handshake flavours a fault-free run records both byte streams; the scripted socket then delivers/accepts exactly up to offset o and faults, for o over every record boundary, +1..+5, middle and last byte of every record x fault kind x endpoint x direction. "
+         "The interrupted call must raise a socket/abrupt-close error (or the peer's queued alert), the connection be closed, no handshake reported complete, the session absent or non-resumable; the peer may complete only if it held the victim's complete last flight. "
+         "Data phase: close_notify / warning / fatal alert / EOF / EOF inside a record after k data records x closeSocket x ignoreAbruptClose: orderly close gives empty reads, closed-connection error on write and a resumable session; truncation is never a clean end; fatal alerts surface with their description.",
+         "sendall() is blocking-complete; TLS 1.3 'complete last flight' is located with the reference receiver (first record under application keys)",
+         "DESIGN.md §4 C17"),
  "C19": ("exploration",
          "property-based testing: snapshot purity/idempotence checks, enumerated out-of-domain values, and an under-approximating compatibility model vs real loopback handshakes",
          "validate() is run on lattice-constructed settings with a deep snapshot before/after (also when it raises), validate(validate(s)) is compared field-wise, results may name only loaded back-ends; every documented field is set to "
